@@ -102,7 +102,7 @@ func (r *runner) crafted(w []string) string {
 		}
 		idxs, q := parseUints(w[1]), unHexList(w[2])
 		p := &rmt.Proof{Size: r.lastP.Size, Idxs: idxs, SiblingHashes: copyList(r.lastP.SiblingHashes)}
-		got := rmt.VerifyProof(copyList(q), p, r.tr.Root())
+		got := r.pureVerifyProof("vcraft", copyList(q), p, r.tr.Root())
 		if got && int(p.Size) == n {
 			if len(idxs) != len(q) {
 				r.fail("c11-proof-accepts-length-mismatch", fmt.Sprintf("size %d idxs %s with %d query hashes", n, uintList(idxs), len(q)))
@@ -126,7 +126,7 @@ func (r *runner) crafted(w []string) string {
 		}
 		idxs, upd := parseUints(w[1]), unHexList(w[2])
 		p := &rmt.Proof{Size: r.lastP.Size, Idxs: idxs, SiblingHashes: copyList(r.lastP.SiblingHashes)}
-		got, err := rmt.CalculateRootFromUpdateData(copyList(upd), p)
+		got, err := r.pureUpdateData("ucraft", copyList(upd), p)
 		if err != nil {
 			return "err"
 		}
